@@ -102,3 +102,41 @@ Definition trace3_ok (rf re : list (list nat)) (tpls : list (list nref)) : bool 
   let pieces := flat_map (face_pieces_coded rf re) (seq 0 (length rf)) in
   forallb (fun e => Nat.eqb (focc e E) 1 && Nat.eqb (focc e pieces) 1) pieces
   && forallb (fun e => (focc e pieces =? 1) || (focc e E =? 2)) E.
+
+(* ------------------------------------------------------------------ quadrilateral faces (hexahedra) *)
+(* the four quadrilaterals into which a face with vertices a, b, c, d (cyclic), edge nodes mab, mbc, mcd, mda and face node n is cut *)
+Definition quad_pieces (a b c d mab mbc mcd mda n : nat) : list (list nat) :=
+  [isort [a; mab; n; mda]; isort [b; mbc; n; mab]; isort [c; mcd; n; mbc]; isort [d; mda; n; mcd]].
+
+Definition resolved_qface_pieces (rf re : list (list nat)) (oE oF : nat) (c : cctx) (a : nat) : list (list nat) :=
+  let lf := nth a rf [] in
+  let i0 := nth 0 lf 0 in let i1 := nth 1 lf 0 in let i2 := nth 2 lf 0 in let i3 := nth 3 lf 0 in
+  let m i j := oE + nth (eslot re i j) (ce c) 0 in
+  quad_pieces (nth i0 (cv c) 0) (nth i1 (cv c) 0) (nth i2 (cv c) 0) (nth i3 (cv c) 0)
+              (m i0 i1) (m i1 i2) (m i2 i3) (m i3 i0) (oF + nth a (cf c) 0).
+
+Definition face_trace4 (edges : list (list nat)) (oE oF f : nat) (fv : list nat) : list (list nat) :=
+  let a := nth 0 fv 0 in let b := nth 1 fv 0 in let c := nth 2 fv 0 in let d := nth 3 fv 0 in
+  let m x y := oE + lidx (isort [x; y]) edges in
+  quad_pieces a b c d (m a b) (m b c) (m c d) (m d a) (oF + f).
+
+Definition qface_edges_okb (nn : nat) (rf re : list (list nat)) : bool :=
+  forallb (fun lf => match lf with
+                     | [i0; i1; i2; i3] =>
+                         nodup_nref [NV i0; NV i1; NV i2; NV i3] &&
+                         (i0 <? nn) && (i1 <? nn) && (i2 <? nn) && (i3 <? nn) &&
+                         (eslot re i0 i1 <? length re) && (eslot re i1 i2 <? length re) &&
+                         (eslot re i2 i3 <? length re) && (eslot re i3 i0 <? length re)
+                     | _ => false
+                     end) rf.
+
+Definition qface_pieces_coded (rf re : list (list nat)) (a : nat) : list (list nat) :=
+  let lf := nth a rf [] in
+  let i0 := nth 0 lf 0 in let i1 := nth 1 lf 0 in let i2 := nth 2 lf 0 in let i3 := nth 3 lf 0 in
+  let m i j := ncode (NE (eslot re i j)) in
+  quad_pieces (ncode (NV i0)) (ncode (NV i1)) (ncode (NV i2)) (ncode (NV i3)) (m i0 i1) (m i1 i2) (m i2 i3) (m i3 i0) (ncode (NF a)).
+Definition trace4_ok (rf re : list (list nat)) (tpls : list (list nref)) : bool :=
+  let E := child_faces rf tpls in
+  let pieces := flat_map (qface_pieces_coded rf re) (seq 0 (length rf)) in
+  forallb (fun e => Nat.eqb (focc e E) 1 && Nat.eqb (focc e pieces) 1) pieces
+  && forallb (fun e => (focc e pieces =? 1) || (focc e E =? 2)) E.
